@@ -5,7 +5,7 @@ from .store import MODES
 
 DEFAULT_WEIGHTS = {
     'addLoose': 22, 'addPacked': 16, 'packAll': 10, 'clean': 7, 'delete': 7, 'repack': 6, 'loosen': 5,
-    'reopen': 4, 'reinit': 1, 'import': 8, 'repackOne': 3, 'plantDup': 3,
+    'reopen': 4, 'reinit': 1, 'import': 8, 'repackOne': 3, 'plantDup': 3, 'importMany': 2,
 }
 
 
@@ -37,10 +37,11 @@ def next_op(rng, runner, weights=None, allow=None, reuse=0.35) -> dict:
     names = sorted(runner.conts)
     if len(names) < 2:
         weights.pop('import', None)
+        weights.pop('importMany', None)
     if allow is not None:
         weights = {k: v for k, v in weights.items() if k in allow}
     kind = weighted(rng, weights)
-    on = rng.choice(names) if kind != 'import' else None
+    on = rng.choice(names) if kind not in ('import', 'importMany') else None
     rc = runner.conts[on] if on else None
     if kind == 'addLoose':
         return {'op': 'addLoose', 'on': on, 'c': pick_content(rng, runner, rc, reuse), 'via': rng.choice(['bytes', 'stream', 'short']),
@@ -123,6 +124,31 @@ def next_op(rng, runner, weights=None, allow=None, reuse=0.35) -> dict:
         return {'op': 'reopen', 'on': on}
     if kind == 'reinit':
         return {'op': 'reinit', 'on': on}
+    if kind == 'importMany':
+        # several objects the destination lacks are first stored in the source (loose and packed), then imported in one call
+        # with a memory budget that makes the cache flush once or several times
+        dst, src = rng.sample(names, 2)
+        srcc, dstc = runner.conts[src], runner.conts[dst]
+        fresh = [c for c in range(len(runner.pool)) if c not in dstc.expected]
+        if len(fresh) < 3:
+            return {'op': 'reopen', 'on': dst}
+        cs = rng.sample(fresh, rng.randint(3, min(8, len(fresh))))
+        ops = []
+        need = [c for c in cs if c not in srcc.expected]
+        cut = rng.randint(0, len(need))
+        if need[:cut]:
+            ops.append({'op': 'addPacked', 'on': src, 'cs': need[:cut], 'compress': rng.random() < 0.5, 'no_holes': False, 'read_twice': False,
+                        'via': 'bytes', 'short': 64})
+        for c in need[cut:]:
+            ops.append({'op': 'addLoose', 'on': src, 'c': c, 'via': 'bytes'})
+        sz = sorted(runner.pool.size(c) for c in cs)
+        req = sum(sz)
+        budget = rng.choice([2 * sz[-1] + 7, sz[-1] + 1, req // 2 + 1, req // 3 + 1, sz[len(sz) // 2] + 1, req - 1 if req > 1 else 1])
+        ks = list(cs)
+        rng.shuffle(ks)
+        ops.append({'op': 'import', 'on': dst, 'src': src, 'ks': ks, 'compress': rng.random() < 0.5, 'budget': budget,
+                    'iter': rng.choice(['list', 'tuple', 'set', 'gen']), 'callback': rng.random() < 0.3})
+        return ops
     if kind == 'import':
         dst, src = rng.sample(names, 2)
         srcc = runner.conts[src]
@@ -133,7 +159,10 @@ def next_op(rng, runner, weights=None, allow=None, reuse=0.35) -> dict:
         if rng.random() < 0.15:
             ks.append('e' * 40)
         sizes = sorted(runner.pool.size(c) for c in range(len(runner.pool)))
-        budget = rng.choice([1, sizes[len(sizes) // 2] + 1, sizes[-1] + 1, 2 * sizes[-1] + 7, 104857600, rng.randint(1, max(2, sizes[-1]))])
+        req = sum(runner.pool.size(k) for k in set(ks) if isinstance(k, int))
+        # budgets: everything streamed / around the median object / just above the largest / two or three flushes / everything in one flush
+        budget = rng.choice([1, sizes[len(sizes) // 2] + 1, sizes[-1] + 1, 2 * sizes[-1] + 7, 104857600, rng.randint(1, max(2, sizes[-1])),
+                             req // 2 + 1, req // 3 + 1])
         return {'op': 'import', 'on': dst, 'src': src, 'ks': ks, 'compress': rng.random() < 0.5, 'budget': budget,
                 'iter': rng.choice(['list', 'tuple', 'set', 'gen']), 'callback': rng.random() < 0.5}
     raise ValueError(kind)
